@@ -117,7 +117,10 @@ def real_shard(seed, n, tier="quick"):
     inits = st.fixed_dictionaries({
         "executor": st.sampled_from(["plain", "reusable"]), "workers": st.integers(1, 2), "timeout": st.sampled_from([None, 0.15, 20]),
         "mark": st.integers(1, 10 ** 6), "fail_on": st.sampled_from([[], [], [], [1], [2], [0]]), "memleak": st.booleans(),
-        "ntasks": st.integers(3, 7), "gaps": st.lists(st.integers(0, 5), max_size=2), "resize_at": st.lists(st.integers(0, 4), max_size=1)})
+        "ntasks": st.integers(3, 7), "gaps": st.lists(st.integers(0, 5), max_size=2), "resize_at": st.lists(st.integers(0, 4), max_size=1),
+        # the executor is shut down (wait=True) with this many tasks still queued: workers respawned meanwhile (memory-leak
+        # recycling, idle time-out) are workers like the others
+        "pending_shutdown": st.sampled_from([0, 0, 4, 8])})
 
     @hypothesis.seed(seed)
     @settings(max_examples=n, database=None, deadline=None, suppress_health_check=list(HealthCheck), report_multiple_bugs=False,
@@ -135,7 +138,7 @@ def real_shard(seed, n, tier="quick"):
         if v and v[0][0] == "driver_incomplete":
             raise HarnessError(f"C18 driver incomplete rc={res['rc']}: {res['err'][-1200:]}")
         nt = any(f["inheritable"] for f in fds) or bool(env) or any(e.get("n") or e["how"] in ("signal", "raise") for e in exits) \
-            or bool(ini and (ini["fail_on"] or ini["memleak"] or ini["gaps"] or ini["resize_at"]))
+            or bool(ini and (ini["fail_on"] or ini["memleak"] or ini["gaps"] or ini["resize_at"] or ini.get("pending_shutdown")))
         if not fails:
             acc.case(case, nt)
             acc.count("extra_fds", len(fds))
